@@ -120,6 +120,8 @@ class Driver:
         self.react_set = list(react_set) if react_set else None
         self.reacted_set = None
         self.react_once = None          # the same, armed by a replayed TLC behaviour for the step it names
+        self.react_once_fw = None       # likewise for the update_fw reaction
+        self.reacting_fw = None
         self.events = []
         self.ops = []
         self.lines = {}
@@ -268,16 +270,18 @@ class Driver:
         seen = self._seen()
         entry = [self._msg_fields(msg), seen]
         self.cb_log.append(entry)
-        if self.react_fw and int(msg.type) == 0:
+        fw = self.react_once_fw or self.react_fw
+        if fw and int(msg.type) == 0:
+            self.reacting_fw = tuple(fw)
             # re-entry: a controller call from inside the event callback
             try:
                 if self.flavour == "async":
                     loop = self._loop()
                     if loop.is_running():
                         raise RuntimeError("inside the running loop (stop() in progress): the coroutine cannot be awaited here")
-                    loop.run_until_complete(self.gw.update_fw(msg.node_id, self.react_fw[0], self.react_fw[1]))
+                    loop.run_until_complete(self.gw.update_fw(msg.node_id, fw[0], fw[1]))
                 else:
-                    self.gw.update_fw(msg.node_id, self.react_fw[0], self.react_fw[1])
+                    self.gw.update_fw(msg.node_id, fw[0], fw[1])
                 self.reacted = int(msg.node_id)
             except Exception:  # pylint: disable=broad-except
                 pass            # no reaction took place
@@ -310,7 +314,7 @@ class Driver:
             t2, v2, a2 = self.reacting
             rx = {"on": True, "kind": "set", "n": 0, "f": [0, 0], "t": t2, "v": describe(str(v2), self.I), "a": a2, "exc": self.reacted_set}
         else:
-            rx = {"on": self.reacted is not None, "kind": "fw", "n": self.reacted or 0, "f": list(self.react_fw or (0, 0)),
+            rx = {"on": self.reacted is not None, "kind": "fw", "n": self.reacted or 0, "f": list(self.reacting_fw or self.react_fw or (0, 0)),
                   "t": 0, "v": describe("", self.I), "a": 0, "exc": "none"}
         self.reacted = None
         self.reacted_set = None
@@ -790,6 +794,9 @@ def replay_ops(cfg, ops, persistence_file=None):
         if k == "react_once":
             drv.react_once = op[1]          # holds for the next step only
             continue
+        if k == "react_once_fw":
+            drv.react_once_fw = op[1]
+            continue
         if k == "link":
             drv.link(op[1])
         elif k == "send":
@@ -820,6 +827,6 @@ def replay_ops(cfg, ops, persistence_file=None):
             drv.snapshot(tempfile.gettempdir())
         elif k == "set_child_raw":
             pass
-        drv.react_once = None
+        drv.react_once = drv.react_once_fw = None
     drv.close()
     return drv.trace(cfg)
